@@ -749,6 +749,8 @@ type result struct {
 	viol     []string
 	ttl      time.Duration
 	setupErr string
+	// tables: the version table every broker would advertise (brokers keep the table they were created with)
+	tables map[int32]map[int16][2]int16
 }
 
 func execute(c routeCase) *result {
@@ -880,6 +882,20 @@ func execute(c routeCase) *result {
 	cl.Close() // waits for the broker goroutines: the journal is complete and no longer written
 	res.journal = cl.Journal()
 	res.viol = cl.Violations()
+	res.tables = map[int32]map[int16][2]int16{}
+	cl.Lock()
+	for _, e := range res.journal {
+		if _, ok := res.tables[e.BrokerID]; !ok {
+			if b := cl.BrokerUnlocked(e.BrokerID); b != nil {
+				m := map[int16][2]int16{}
+				for k, v := range b.Versions {
+					m[k] = v
+				}
+				res.tables[e.BrokerID] = m
+			}
+		}
+	}
+	cl.Unlock()
 	return res
 }
 
@@ -955,8 +971,14 @@ func run(tb ev.TB, c routeCase) *outcome {
 		}
 		tbl, ok := adv[e.ConnID]
 		if !ok {
-			ev.Inconclusive("request_on_connection_without_apiversions")
-			continue
+			// no ApiVersions exchange on this connection: the range "the broker advertised" is the one it would have
+			// answered with, i.e. its table (a client that reuses another broker's answer is judged against this broker's)
+			out.label("request_on_connection_without_apiversions")
+			tbl, ok = res.tables[e.BrokerID]
+			if !ok {
+				ev.Inconclusive("request_on_connection_without_apiversions")
+				continue
+			}
 		}
 		r, ok := tbl[e.ApiKey]
 		if !ok {
